@@ -261,3 +261,92 @@ func CollIteration(fam byte, key, pat string, count int) *Step {
 	}
 	return st
 }
+
+
+// IterationAcross iterates a set ('E') or sorted set ('Z') page by page (page size 1) and, after the
+// first page, runs one operation that leaves every member a member at every instant (a store of
+// the collection into itself, a move of a member from the key to the same key).  Every member is
+// therefore present for the whole iteration and must be returned exactly once.  (These
+// operations re-create rows under new row ids; a member whose new id is below the cursor is never
+// returned, one whose new id is above it is returned again: recorded finding, named by tag.)
+func IterationAcross(fam byte, key string, mid func() *Op, tag string) *Step {
+	it := &iterState{}
+	did := false
+	st := &Step{}
+	name := map[byte]string{'E': "EScan", 'Z': "ZScan"}[fam]
+	st.Gen = func(x *Exec) *Op {
+		if it.owner != x {
+			*it = iterState{owner: x}
+			did = false
+		}
+		if it.done {
+			return nil
+		}
+		if it.pages == 1 && !did {
+			did = true
+			return mid()
+		}
+		cur := it.cursor
+		return &Op{Name: name + "-iter", Tok: fmt.Sprintf("%s %s %s %s %s", name, SS(key), I(cur), SS("*"), I(1)),
+			Run: func(r R, x *Exec, op *Op) Res {
+				var items []string
+				var next int
+				if fam == 'E' {
+					res, err := r.Set().Scan(key, cur, "*", 1)
+					if err != nil {
+						it.done = true
+						return errOnly(err)
+					}
+					for _, v := range res.Items {
+						items = append(items, S(v))
+						it.items = append(it.items, S(v))
+					}
+					next = res.Cursor
+				} else {
+					res, err := r.ZSet().Scan(key, cur, "*", 1)
+					if err != nil {
+						it.done = true
+						return errOnly(err)
+					}
+					for _, v := range res.Items {
+						items = append(items, L(S(v.Elem), F(v.Score)))
+						it.items = append(it.items, S(v.Elem))
+					}
+					next = res.Cursor
+				}
+				it.cursor = next
+				it.pages++
+				if len(items) == 0 {
+					it.done = true
+				}
+				return ok(L(I(next), L(items...)))
+			}}
+	}
+	st.Verify = func(x *Exec) string {
+		r := verifhook.DB(x.DB)
+		var all []string
+		if fam == 'E' {
+			vs, err := r.Set().Items(key)
+			if err != nil {
+				return "items: " + err.Error()
+			}
+			for _, v := range vs {
+				all = append(all, S(v))
+			}
+		} else {
+			vs, err := r.ZSet().RangeWith(key).ByScore(negInf, posInf).Run()
+			if err != nil {
+				return "range: " + err.Error()
+			}
+			for _, v := range vs {
+				all = append(all, S(v.Elem))
+			}
+		}
+		if multiset(all) != multiset(it.items) {
+			return fmt.Sprintf("%s: iterating %q page by page with an operation in between that keeps every member a member returned {%s}; the collection held {%s} at every instant",
+				tag, key, multiset(it.items), multiset(all))
+		}
+		return ""
+	}
+	return st
+}
